@@ -228,44 +228,42 @@ func RPMFile(info Info, data []byte) (Info, error) {
 	info.Attributes = append(info.Attributes, Attribute{"Release", rpmString(hdr, rpm.RPMTAG_RELEASE)})
 	info.Attributes = append(info.Attributes, Attribute{"Architecture", rpmString(hdr, rpm.RPMTAG_ARCH)})
 
-	if len(r.Headers) > 0 {
-		sigIdx := r.Headers[0].Indexes
-		if len(sigIdx) > 0 && sigIdx[0].Tag == rpm.RPMTAG_HEADERSIGNATURES {
-			if md5Digest := rpmBytes(sigIdx, rpm.RPMSIGTAG_MD5); len(md5Digest) > 0 {
-				info.Attributes = append(info.Attributes, Attribute{names.MD5, hex.EncodeToString(md5Digest)})
-			}
-			if sha1Digest := rpmString(sigIdx, rpm.RPMSIGTAG_SHA1); len(sha1Digest) > 0 {
-				info.Attributes = append(info.Attributes, Attribute{names.SHA1, sha1Digest})
-			}
-			if sha256Digest := rpmString(sigIdx, 273); len(sha256Digest) > 0 {
-				info.Attributes = append(info.Attributes, Attribute{names.SHA256, sha256Digest})
-			}
+	// The signature header is read whether or not it starts with the region tag
+	// RPMTAG_HEADERSIGNATURES: packages written by rpm 3.x have none.
+	sigIdx := r.Headers[0].Indexes
+	if md5Digest := rpmBytes(sigIdx, rpm.RPMSIGTAG_MD5); len(md5Digest) > 0 {
+		info.Attributes = append(info.Attributes, Attribute{names.MD5, hex.EncodeToString(md5Digest)})
+	}
+	if sha1Digest := rpmString(sigIdx, rpm.RPMSIGTAG_SHA1); len(sha1Digest) > 0 {
+		info.Attributes = append(info.Attributes, Attribute{names.SHA1, sha1Digest})
+	}
+	if sha256Digest := rpmString(sigIdx, 273); len(sha256Digest) > 0 {
+		info.Attributes = append(info.Attributes, Attribute{names.SHA256, sha256Digest})
+	}
 
-			foundSig := false
-			for _, t := range []int{rpm.RPMSIGTAG_DSA, rpm.RPMSIGTAG_RSA} {
-				if sig := rpmBytes(sigIdx, t); len(sig) > 0 {
-					foundSig = true
-					info.Children = append(info.Children, Info{
-						Description: "Signature",
-						Attributes:  rpmSignatureAttributes(sig),
-					})
-				}
-			}
-
-			for _, t := range []int{rpm.RPMSIGTAG_GPG, rpm.RPMSIGTAG_PGP} {
-				if sig := rpmBytes(sigIdx, t); len(sig) > 0 {
-					foundSig = true
-					info.Children = append(info.Children, Info{
-						Description: "Legacy signature (RPM v3)",
-						Attributes:  rpmSignatureAttributes(sig),
-					})
-				}
-			}
-
-			if !foundSig {
-				info.Attributes = append(info.Attributes, Attribute{"Signature", "none"})
-			}
+	foundSig := false
+	for _, t := range []int{rpm.RPMSIGTAG_DSA, rpm.RPMSIGTAG_RSA} {
+		if sig := rpmBytes(sigIdx, t); len(sig) > 0 {
+			foundSig = true
+			info.Children = append(info.Children, Info{
+				Description: "Signature",
+				Attributes:  rpmSignatureAttributes(sig),
+			})
 		}
+	}
+
+	for _, t := range []int{rpm.RPMSIGTAG_GPG, rpm.RPMSIGTAG_PGP} {
+		if sig := rpmBytes(sigIdx, t); len(sig) > 0 {
+			foundSig = true
+			info.Children = append(info.Children, Info{
+				Description: "Legacy signature (RPM v3)",
+				Attributes:  rpmSignatureAttributes(sig),
+			})
+		}
+	}
+
+	if !foundSig {
+		info.Attributes = append(info.Attributes, Attribute{"Signature", "none"})
 	}
 	return info, nil
 }
